@@ -119,6 +119,12 @@ class Prop:
                         line = 'oas ' + hx(Layout(rng).text(m))
                         self.models[line] = m
                         cs.append(Case(line, 'bound'))
+        # string formats, alone and as alternatives written as names or as rule-sets
+        for fmt, ex in [('datetime', '"2021-01-02T07:23:12+03:00"'), ('date', '"2021-01-02"'), ('email', '"x@y.org"'), ('uri', '"http://a.b/c"'),
+                        ('uuid', '"550e8400-e29b-41d4-a716-446655440000"')]:
+            for form in ['%s // {type: "%s"}', '%s // {or: ["%s", "integer"]}', '%s // {or: [{type: "%s"}, {type: "integer", min: 0}]}',
+                         '{\n  "k": %s, // {or: [{type: "%s"}, {type: "@t"}]}\n  "n": 1\n}', '[\n  %s // {or: [{type: "%s", nullable: true}, "boolean"]}\n]']:
+                cs.append(Case('oas ' + hx(form % (ex, fmt)), 'format'))
         self.case_class = {c.line: c.klass for c in cs}
         return cs
 
@@ -134,7 +140,9 @@ class Prop:
         out = []
         for r in res:
             m = re.match(r'check=(\S+) len=(\S+) used=(\S+) example=(\S+) ast=(\S+) openapi=(\S+)', r)
-            if not m:
+            if m and ' again=' in r:
+                out.append('again ' + r.split(' again=')[1][:120])
+            elif not m:
                 out.append('rej ' + r[:60])
             elif not m.group(1).startswith('ok'):
                 out.append('rej ' + m.group(1).split('~')[0])
@@ -192,6 +200,8 @@ class Prop:
             if 'panic' in o or 'TOOLCRASH' in o:
                 bad.append((c, 'crash: ' + o[:120])); continue
             m = re.match(r'ok example=(\S+) openapi=(\S+)', o)
+            if o.startswith('again '):
+                bad.append((c, 'asked a second time, the same schema object gives another answer: ' + o[6:])); continue
             if not m:
                 if c.line in self.models:
                     bad.append((c, 'a valid schema is not accepted: ' + o[:80]))
